@@ -271,6 +271,10 @@ class PBES2HSAlgModel(JWEKeyEncryption):
             recipient.add_header("p2s", urlsafe_b64encode(p2s).decode("ascii"))
         else:
             p2s = urlsafe_b64decode(to_bytes(headers["p2s"]))
+            # https://www.rfc-editor.org/rfc/rfc7518#section-4.8.1.1
+            # A Salt Input value containing 8 or more octets MUST be used.
+            if len(p2s) < 8:
+                raise ValueError('Invalid "p2s" value in header')
 
         if "p2c" not in headers:
             # A minimum iteration count of 1000 is RECOMMENDED.
